@@ -126,7 +126,7 @@ Section Ok.
     ty_eqb (fty d 0) (TScalar (KEnum (ftag d 0))) && ty_eqb (fty d 1) (TScalar KBytes) &&
     ty_eqb (fty d 2) (TScalar (KEnum (ftag d 2))) && ty_eqb (fty d 3) (TScalar (KEnum (ftag d 3))) &&
     ty_eqb (fty d 4) (TScalar KString) && ty_eqb (fty d 5) (TScalar KBytes) &&
-    ext_ok (fty d 7) && (0 <=? ftag d 3) && (ftag d 3 <? 2 ^ 24) &&
+    ext_ok (fty d 7) && ((0 <=? ftag d 0) && (ftag d 0 <? 2 ^ 24)) && ((0 <=? ftag d 3) && (ftag d 3 <? 2 ^ 24)) &&
     tags_distinct [ftag d 0; ftag d 1; ftag d 2; ftag d 3; ftag d 4; ftag d 5; ftag d 6; ftag d 7].
 
   Definition attr_value_ok (t : ty) : bool := one_item t && elem_ok t.
